@@ -266,8 +266,40 @@ Definition RELTAG : N := 31338.
 Definition is_rel_case (s : sexp) : bool :=
   match s with L (A t :: _) => N.eqb t RELTAG | _ => false end.
 
+(* a registry case outside the model (package files imported as assets): the REAL loader-call log is judged
+   by the statement of C05_registry_presents_manifest_checksum - every call for a file of a registry package
+   presents the checksum the version manifest gives for that file *)
+Definition CALLSTAG : N := 31339.
+Definition is_calls_case (s : sexp) : bool :=
+  match s with L (A t :: _) => N.eqb t CALLSTAG | _ => false end.
+Definition call_presents_manifest (W : jworld) (c : jcall) : bool :=
+  match cls_of W (jc_spec c) with
+  | CFile p v path =>
+      match v_meta (ver_of W (p, v)) with
+      | VOk vi => match get_checksum W vi path, jc_checksum c with
+                  | Some k, Some x => N.eqb x k
+                  | _, _ => false end
+      | _ => false
+      end
+  | _ => true
+  end.
+Definition dec_jcall (s : sexp) : option jcall :=
+  match s with
+  | L [A sp; A st; ck] => do c <- as_option as_atom ck; Some {| jc_spec := sp; jc_setting := st; jc_checksum := c |}
+  | _ => None
+  end.
+Definition run_calls_judged (s : sexp) : sexp :=
+  match s with
+  | L [A _; w; calls] =>
+      match dec_jworld w, as_list_of dec_jcall calls with
+      | Some W, Some cs => L [judge (forallb (call_presents_manifest W) cs)]
+      | _, _ => decode_error
+      end
+  | _ => decode_error
+  end.
+
 Definition with_jsr (f : sexp -> sexp) (s : sexp) : sexp :=
-  if is_jsr_case s then run_jsr s else if is_rel_case s then L [] else f s.
+  if is_jsr_case s then run_jsr s else if is_calls_case s then run_calls_judged s else if is_rel_case s then L [] else f s.
 (* the C01 stream also judges "nothing unreachable is present" on registry graphs *)
 Definition with_jsr_c01 (f : sexp -> sexp) (s : sexp) : sexp :=
   if is_jsr_case s then run_jsr_gen true s else if is_rel_case s then L [] else f s.
